@@ -49,7 +49,7 @@ MODELLED = ["simplifier.py:sympy_simplify", "simplifier.py:expand_or_factor", "s
 
 # persistent-fault campaign: (basis, complexity) -> (lineage selectors at sites next to a recording statement, at other sites, exact selectors too?)
 PERSIST_PLAN_QUICK = {("core_maths", 2): (8, 2, False), ("core_maths", 3): (8, 2, False)}
-PERSIST_PLAN_DEEP = {("core_maths", 2): (8, 8, True), ("core_maths", 3): (8, 2, False), ("core_maths", 4): (1, 0, False), ("ext_maths", 3): (2, 0, False)}
+PERSIST_PLAN_DEEP = {("core_maths", 2): (8, 2, True), ("core_maths", 3): (8, 2, False), ("core_maths", 4): (1, 0, False), ("ext_maths", 3): (2, 0, False)}
 
 BASES = {"core_maths": [["x", "a"], ["inv"], ["+", "*", "-", "/", "pow"]],
          "ext_maths": [["x", "a"], ["inv", "sqrt_abs", "square", "exp"], ["+", "*", "-", "/", "pow"]]}
